@@ -57,6 +57,25 @@ pub fn etext(e: &RusticError) -> String {
 /// stable class of an error/panic message: hex ids and numbers are abstracted away
 pub fn classify(msg: &str) -> String {
     let first = msg.lines().find(|l| !l.trim().is_empty()).unwrap_or("").trim();
+    // names and ids in backticks are not part of the class
+    let first = {
+        let mut o = String::new();
+        let mut inside = false;
+        for c in first.chars() {
+            if c == '`' {
+                inside = !inside;
+                if inside {
+                    o.push_str("`_");
+                } else {
+                    o.push('`');
+                }
+            } else if !inside {
+                o.push(c);
+            }
+        }
+        o
+    };
+    let first = first.as_str();
     let mut out = String::new();
     let mut word = String::new();
     let flush = |w: &mut String, out: &mut String| {
